@@ -103,12 +103,23 @@ impl Slicing {
     }
 }
 
+impl Slicing {
+    /// slyce's own `From<isize>` computes `-i`, which overflows for `isize::MIN`
+    fn to_index(index: Option<isize>) -> slyce::Index {
+        match index {
+            None => slyce::Index::Default,
+            Some(i) if i < 0 => slyce::Index::Tail(i.unsigned_abs()),
+            Some(i) => slyce::Index::Head(i as usize),
+        }
+    }
+}
+
 impl Exec for Slicing {
     fn exec(&self, interpreter: &mut Interpreter) -> ExecResult {
         let lhs = self.lhs.exec(interpreter)?;
 
-        let start = Slicing::exec_index(&self.start, interpreter)?.into();
-        let end = Slicing::exec_index(&self.stop, interpreter)?.into();
+        let start = Slicing::to_index(Slicing::exec_index(&self.start, interpreter)?);
+        let end = Slicing::to_index(Slicing::exec_index(&self.stop, interpreter)?);
         let step = Slicing::exec_index(&self.step, interpreter)?;
 
         let s = slyce::Slice { start, end, step };
